@@ -18,6 +18,7 @@ svdriver_c05: line protocol for the two TOC interpreters (`SV.Toc.memTree`, `SV.
   fopen <store> <L> <path>             -> ok | err
   chunk <store> <L> <path> <offset>    -> <chunkOffset> <chunkSize> <digest> | none
   tocspan <store> <L> <compr> <jsonLen> <trailing> -> whole | json | unspec
+  clone <store> <L>                     -> same | closed    (a Clone serves the tree of its origin)
   spec <L>                              -> conf | nonconf   (decides `SpecConforming`, the fragment of the theorems)
 -/
 namespace SV.Driver.C05
@@ -163,6 +164,11 @@ def step (s : St) : List String → St × String
         | .accept t => ({ s with db := setS l (openTree t) s.db }, "ok")
         | .reject => ({ s with db := s.db.filter (·.1 ≠ l) }, "err")
       else (s, "bad-op")
+  | ["clone", store, l] =>
+    -- `Clone` only swaps the SectionReader: root id, TOC digest and every answer are the origin's
+    match stores s store with
+    | some tab => (s, if (lookupS l tab).isSome then "same" else "closed")
+    | none => (s, "bad-op")
   | ["spec", l] =>
     match lookupS l s.tocs with
     | none => (s, "bad-op")
